@@ -146,6 +146,9 @@ func probeRenameLocals(p *Prog) (map[string][]byte, int, error) {
 	seen := map[token.Pos]bool{}
 	n := 0
 	rename := func(id *ast.Ident) {
+		if p.synthIdent[id] {
+			return
+		}
 		if seen[id.Pos()] {
 			return
 		}
